@@ -116,7 +116,7 @@ def occupy(rng, steps, made, pool, share=0.35):
 
 
 MALFORMED = ['nonsuffix', 'empty', 'truncated', 'binary', 'nonutf8', 'nopath', 'nodate', 'baddate',
-             'nopayload', 'orphan', 'dir_in_info', 'infodir_named_trashinfo', 'only_header', 'crlf', 'offsetdate']
+             'nopayload', 'orphan', 'dir_in_info', 'infodir_named_trashinfo', 'only_header', 'crlf', 'offsetdate', 'pctnonutf8', 'pctcontrol']
 
 
 def add_malformed(rng, steps, tdir, kind, tag, path_value=None):
@@ -155,6 +155,18 @@ def add_malformed(rng, steps, tdir, kind, tag, path_value=None):
         steps.append(['f', ip, '[Trash Info]\nPath=%s\nDeletionDate=%s\n' % (
             path_value or '/home/u/w/' + nm, rng.choice(['2003-03-03T10:00:00+01:00', '2003-03-03T10:00:00Z', '2003-03-03T10:00:00.123456',
                                                          '2003-03-03T10:00:00+0100', '2003-03-03T10:00:00 +01:00'])), 0o600])
+        steps.append(['f', fp, 'p', 0o644])
+    elif kind == 'pctnonutf8':
+        # ASCII file content whose percent-escapes decode to bytes that are not UTF-8 (a Latin-1 name written by another tool);
+        # sometimes also truncated (no date)
+        steps.append(['f', ip, '[Trash Info]\nPath=/home/u/w/%s\n%s' % (
+            rng.choice(['caf%E9.txt', '%FF%FE', 'a%C3%28b', '%80', 'ok%ED%A0%80surrogate']),
+            rng.choice(['DeletionDate=2020-01-01T00:00:00\n', 'DeletionDate=2020-01-01T00:00:00\n', ''])), 0o600])
+        steps.append(['f', fp, 'p', 0o644])
+    elif kind == 'pctcontrol':
+        # escapes of control characters: terminal bells, escape sequences, a NUL
+        steps.append(['f', ip, '[Trash Info]\nPath=/home/u/w/%s\nDeletionDate=2020-01-01T00:00:00\n' % (
+            rng.choice(['bell%07', 'esc%1B%5B2J', 'nul%00byte', 'tab%09', 'del%7F'])), 0o600])
         steps.append(['f', fp, 'p', 0o644])
     elif kind == 'nopayload':
         steps.append(['f', ip, '[Trash Info]\nPath=/home/u/w/%s\nDeletionDate=2020-01-01T00:00:00\n' % nm, 0o600])
